@@ -508,6 +508,9 @@ def run(ctx):
     chosen = ug.select(ctx, cases, ug.cap(40 if ctx.quick else 1500))
     have = set(ug.graph_key(c) for c in chosen)
     chosen += [c for c in seeds if ug.graph_key(c) not in have]   # the model-checked graphs are replayed too
+    have = set(ug.graph_key(c) for c in chosen)
+    emb = [c for c in ug.select_embed(ctx, cases, ug.cap(48 if ctx.quick else 1000)) if ug.graph_key(c) not in have]
+    chosen += emb                                                  # embedding cycles (rule 6.5), all orders of <= 4 declarations
     stats, nontrivial, base = run_perm_add(ctx, helper, chosen, 4 if ctx.quick else 24)
     lap(ctx, "perm_add")
     vcases_idx = [i for i in range(len(chosen))]
@@ -544,6 +547,7 @@ def run(ctx):
                 "observation": {"module": "UnusedObs", "artefacts": tr.distinct - 1 if tr else 0}},
         "graphs_enumerated": len(cases),
         "graphs_replayed": len(chosen),
+        "graphs_replayed_embedding_cycles": len(emb),
         "phase_wall_s": ctx.timing,
         "analyses": dict(stats),
         "variants": dict(vstats),
